@@ -5,6 +5,7 @@ import json
 from prov.identifier import Identifier, QualifiedName, Namespace
 from prov.model import ProvDocument, ProvBundle
 
+from prov.constants import PROV
 from ..world import World
 from ..gen import Gen
 from ..docgen import DocBuilder, all_containers
@@ -226,6 +227,17 @@ def make_case(ctx, g):
                 w.new_record(c, x.get_type().localpart, x.identifier,
                              [(QualifiedName(Namespace("ex", "http://example.org/"), "again"), g.rng.randint(0, 9))])
                 ctx.count("duplicate-injected")
+    if how == "unified" and g.chance(0.25):
+        # a bundle that cannot be unified (two statements of one activity that disagree on its start time): unified() of the
+        # document is refused as a whole; it does not return a document that still holds the source's bundle
+        import datetime as _dt
+        bundles_ = all_containers(w, [d])[1:]
+        if bundles_:
+            c_ = g.choice(bundles_)
+            q_ = QualifiedName(Namespace("ex", "http://example.org/"), "clash%d" % g.rng.randint(0, 9))
+            w.new_record(c_, "Activity", q_, [(PROV["startTime"], _dt.datetime(2020, 1, 1, 8, 0, 0))])
+            w.new_record(c_, "Activity", q_, [(PROV["startTime"], _dt.datetime(2020, 1, 2, 9, 30, 0))])
+            ctx.count("bundle-that-cannot-be-unified")
     res = derive(g, w, b, d, how)
     ctx.evaluations += 1
     if res is None:
